@@ -334,10 +334,15 @@ def run_case(case, ctx):
                   unit_twins=case['units'])
     fp = '%s|%s|%s|%r|%r|%r|%r' % (kindcls, case.get('form'), natural, given_amounts(case), case['dens'], case['vol'], case['units'])
     mass_mode = case['kind'] == 'material' and case['norm'] == 'mass'
+    obj = None
     try:
         obj = build(ctx, case, *base_units)
         o = observe(obj, case)
     except Exception as e:
+        if obj is not None:
+            devs.append(dev('matter-data-unreadable:' + type(e).__name__, dict(exc=repr(e)[:300], components=given_amounts(case))))
+            sample['deviations'] = [d['mech'] for d in devs]
+            return _finish(ctx, outcome(classes=sorted(classes), nontrivial=len(texts) >= 2, fp=fp, dev=devs, monitors=mon, sample=sample))
         # a formula the substance parser rejects is C10's business
         for t in texts:
             try:
